@@ -82,6 +82,63 @@ def r7_3(ctx, fx):
     ctx.floor(rid, n, 2, "public members returning current_solution")
 
 
+def r7_6(ctx, fx):
+    from pplv import flow
+    from pplv import effects as E
+    rid = "R7.6"
+    ctx.rule(rid, "cached parametric solution: PIP_Solution_Node keeps the solution it printed or handed out (`solution`, claimed by `solution_valid`). (a) solve() is how PIP_Problem pushes every change of its inputs — constraints, and also the number of variables and parameters, which the cached expressions name by index — into a node, so every path through solve() withdraws the claim; (b) update_tableau(), which edits the members the cache is computed from without touching the claim, is called on the tree by PIP_Problem only where every normal path goes on to solve() the tree")
+    nodes = [f for f in fx.functions if f.clsn == "PIP_Solution_Node" and f.cfg and not f.flag("pattern")]
+    us = [f for f in nodes if f.name == "update_solution"]
+    ctx.require(rid, len(us) >= 1, "PIP_Solution_Node::update_solution not found")
+    deps = set()
+    for u in us:
+        for x in u.walk():
+            if x["k"] == "member":
+                r = u.root(x)
+                if r[0] == "this" and len(r) > 1 and r[1] not in ("solution", "solution_valid"):
+                    deps.add(r[1])
+    ctx.require(rid, len(deps) >= 3, "members read by update_solution(): %s" % sorted(deps))
+    n = 0
+    seen = set()
+
+    def resets(f):
+        def r(x):
+            if x["k"] != "assign":
+                return False
+            l, rr = f.deref(x["c"][0]), f.deref(x["c"][1])
+            return l is not None and f.root(l)[-1:] == ("solution_valid",) and rr is not None and f.text(rr).strip() in ("false", "0")
+        return r
+    for f in nodes:
+        if (f.name, f.line) in seen or f.kind in ("ctor", "dtor") or f.flag("const") or f.name in ("update_solution", "ascii_load", "m_swap"):
+            continue
+        seen.add((f.name, f.line))
+        rs = resets(f)
+        if f.name == "solve":
+            n += 1
+            inst = "PIP_Solution_Node::solve withdraws the cache claim on every path"
+            p = flow.Explorer(f, track_env=False).find_path("ENTRY", rs)
+            if p is None:
+                ctx.ok(rid, inst, f.where())
+            else:
+                ctx.violation(rid, inst, f.where(), "a path through solve() returns with solution_valid untouched (%s): after parameters or variables were added the cached expressions name dimensions by their old indexes" % flow.render_path(f, p))
+            continue
+        # other members (update_tableau, generate_cut, ...) change the members the cache depends on without touching the
+        # claim: they run only inside, or right before, solve() — clause (b) below
+    for f in fx.functions:
+        if f.clsn != "PIP_Problem" or not f.cfg or f.flag("pattern"):
+            continue
+        for c in f.calls():
+            if c["k"] == "mcall" and f.call_name(c) == "update_tableau":
+                n += 1
+                inst = "PIP_Problem::%s calls update_tableau() (line %s)" % (f.name, c.get("l"))
+                p = flow.must_follow(f, c, lambda x: x["k"] == "mcall" and f.call_name(x) == "solve" and "current_solution" in f.text(x), track_env=False)
+                if p is None:
+                    ctx.ok(rid, inst, f.where(c))
+                else:
+                    ctx.violation(rid, inst, f.where(c), "the tree's tableau is updated and a path returns without re-solving it (%s): a cached solution of a node stays claimed valid" % flow.render_path(f, p))
+    ctx.floor(rid, n, 2, "cache obligations in PIP_Solution_Node")
+
+
 def run(ctx):
     ctx.explanation = ("C07 incremental clause: after any write to a problem input (constraints, parameters, space dimension) the "
                        "cached status is downgraded on every path; observers never touch inputs; the cached tree is returned only "
@@ -99,3 +156,4 @@ def run(ctx):
     from rules import dirty
     fxd = ctx.extract([F.lib_unit("PIP_Tree.cc"), F.lib_unit("PIP_Problem.cc")])
     dirty.run(ctx, "R7.5", fxd, lambda f: True, 30, "judged on PIP_Tree.cc and PIP_Problem.cc")
+    r7_6(ctx, fxd)
